@@ -496,6 +496,32 @@ pub fn gen_scenario(seed: u64) -> Scenario {
         } else {
             None
         };
+        // imports inside the module's @test / @main functions: they run while the module is
+        // still being imported (a cycle closed from there is a cycle; a failure there fails
+        // the import as a whole)
+        let mut test = test;
+        let mut main = main;
+        for steps in [test.as_mut(), main.as_mut()].into_iter().flatten() {
+            if r.chance(1, 4) {
+                let target = if allow_cycles && r.chance(1, 2) {
+                    r.usize_below(n)
+                } else if m + 1 < n {
+                    m + 1 + r.usize_below(n - m - 1)
+                } else {
+                    continue;
+                };
+                if target == m && !allow_cycles {
+                    continue;
+                }
+                steps.push(Step::Import(ImportStmt {
+                    target,
+                    form: *r.pick(&[Form::Plain, Form::As, Form::FromItem, Form::FromItemAs]),
+                    in_try: r.chance(1, 4),
+                    id: id(),
+                    via: 0,
+                }));
+            }
+        }
         modules.push(ModuleDef { top, test, main });
     }
     // faults at modules: fault points (transient, driven by the per-operation plan) and
